@@ -15,6 +15,10 @@ func (st *State) newErr(prefix string) *Term {
 	e := st.fresh(prefix, SInt)
 	// a newly produced error value is not one of the package-level sentinel errors
 	st.assume(And(Gt(e, IntLit(0)), Lt(e, IntLit(900000000))))
+	if st.nonzero == nil {
+		st.nonzero = map[string]bool{}
+	}
+	st.nonzero[e.S] = true
 	return e
 }
 
@@ -289,7 +293,16 @@ func (st *State) specBuiltin(env *Env, e *Expr) (SVal, types.Type, bool) {
 		if !ok {
 			st.unsupported("contains() needs a slice")
 		}
-		return Select(st.memberArr(st.view(env), sv), st.scalar(b)), tBool, true
+		return st.memberOf(st.view(env), sv, st.scalar(b)), tBool, true
+	case "uuidslice":
+		// the []uuid.UUID value stored in a JSON column (identified by its backing array)
+		// uuidslice(isNull, base): exactly the slice an entity object carries for that column
+		nl := st.elabBool(env, e.Args[0])
+		a, _ := st.elab(env, e.Args[1])
+		b := st.scalar(a)
+		t := st.resolveType(env.pkg, "uuid.UUID")
+		ln := Ite(nl, IntLit(0), st.blobLen(b))
+		return &SliceV{Base: Ite(nl, IntLit(0), b), Off: IntLit(0), Len: ln, Cap: ln, Elem: t}, types.NewSlice(t), true
 	case "parses":
 		a, _ := st.elab(env, e.Args[0])
 		return App(SBool, st.declareFun("spec.parses", []Sort{SStr}, SBool), st.scalar(a)), tBool, true
